@@ -5,7 +5,7 @@ import OpenHTF.Driver.C02
    `C12 K <act>* # <bodyRan> <raisedInBody> <raisedInHandlers> <finished> <extra>*`
        act := st | ta | tc | tb | te | th | tf | td | ks:k | ka:k | kt:k | kc:k | kr:k
        extra := X:<fact about the real run detected by the harness>
-   `C12 J <timeout|-> <interval> <d|inf> # <own|timeout> <t_return>`          (units: 1/16 s of virtual time)
+   `C12 J <timeout|-> <interval> <d|inf> <h> # <own|timeout> <t_return>`          (units: 1/16 s of virtual time)
    `C12 G <test> # <real tokens>`   executor model on a program with timed-out phases (same as C03's line) -/
 namespace OpenHTF.Driver.C12
 open OpenHTF.Driver OpenHTF.Kill
@@ -58,14 +58,14 @@ def showJ : JoinResult → String | .own => "own" | .timeout => "timeout"
 
 def handleJ (ts : Toks) : String :=
   match ts with
-  | [toT, ivT, dT, "#", resT, tT] =>
+  | [toT, ivT, dT, hT, "#", resT, tT] =>
     let timeoutOpt : Option Nat := toT.toNat?
-    match ivT.toNat?, tT.toNat? with
-    | some iv, some tReal =>
+    match ivT.toNat?, tT.toNat?, hT.toNat? with
+    | some iv, some tReal, some hh =>
       let d : Option Nat := dT.toNat?
       let mtimeout := effectiveTimeoutS timeoutOpt * (if timeoutOpt.isNone then 16 else 1)
-      let m0 := joinOrDie mtimeout iv d false
-      let m1 := joinOrDie mtimeout iv d true
+      let m0 := joinOrDie mtimeout iv d hh false
+      let m1 := joinOrDie mtimeout iv d hh true
       let agree := (showJ m0.1 == resT && m0.2 == tReal) || (showJ m1.1 == resT && m1.2 == tReal)
       -- the spec uses the documented default (180 s), not the regenerated constant
       let timeout := match timeoutOpt with | some t => t | none => 180 * 16
@@ -75,7 +75,7 @@ def handleJ (ts : Toks) : String :=
         (match d with
          | some dv => if decide (dv < timeout) && resT != "own" then ["body-returned-before-deadline-reported-as-timeout"] else []
          | none => if resT != "timeout" then ["hung-body-not-reported-as-timeout"] else []) ++
-        (if decide (tReal < timeout + iv) || decide (tReal ≤ (d.getD 0)) then [] else ["executor-proceeded-later-than-deadline-plus-poll-interval"]) ++
+        (if decide (tReal < timeout + iv) || decide (tReal ≤ (d.getD 0) + hh) then [] else ["executor-proceeded-later-than-deadline-plus-poll-interval"]) ++
         (match d with
          | some dv => if resT == "timeout" && decide (dv < timeout) then [] else
                       if resT == "timeout" && decide (tReal < timeout) then ["timeout-reported-before-the-deadline"] else []
@@ -83,7 +83,7 @@ def handleJ (ts : Toks) : String :=
       reply agree fails.isEmpty
         (if fails.isEmpty then (if agree then "ok" else "model=" ++ showJ m0.1 ++ "@" ++ toString m0.2 ++ "|" ++ showJ m1.1 ++ "@" ++ toString m1.2)
          else ",".intercalate fails)
-    | _, _ => reply false false "parse-error"
+    | _, _, _ => reply false false "parse-error"
   | _ => reply false false "parse-error"
 
 def handle (ts : Toks) : String :=
